@@ -314,11 +314,15 @@ func (h *Hist) Exec(op Op) Op {
 		}
 		h.mon.FollowUp(op, err)
 	case "redelegate":
+		pre := h.snap()
 		err := try(func(ctx sdk.Context) error {
 			_, e := sms.BeginRedelegate(ctx, &stakingtypes.MsgBeginRedelegate{DelegatorAddress: h.acc(op.A).String(), ValidatorSrcAddress: h.val(op.V), ValidatorDstAddress: h.val(op.W), Amount: sdk.NewCoin("FX", amt(op.Amt))})
 			return e
 		})
 		h.cur, op.Res = nil, res(err)
+		if err == nil {
+			h.followRedelegate(op, pre, h.snap())
+		}
 		h.mon.FollowUp(op, err)
 	case "withdraw":
 		pre := h.snap()
@@ -559,6 +563,71 @@ func (h *Hist) follow(op Op, pre, post *Snap) {
 	if len(h.cw.items) > n {
 		h.cw.follow++
 		h.rep.Count("follow-case:" + op.Kind)
+	}
+}
+
+// followRedelegate: the correspondence case of a successful redelegation between two bonded validators
+func (h *Hist) followRedelegate(op Op, pre, post *Snap) {
+	if h.cw.follow >= h.cw.followLimit {
+		return
+	}
+	c := h.c
+	for _, vi := range []int{op.V, op.W} {
+		val, err := c.App.StakingKeeper.GetValidator(c.Ctx, sdk.ValAddress(h.acc(vi)))
+		if err != nil || !val.IsBonded() {
+			return
+		}
+	}
+	a, v, w := h.id(op.A), h.id(op.V), h.id(op.W)
+	balOf := func(s *Snap) *big.Int {
+		for _, b := range s.Bal {
+			if b.A == a && b.D == 0 {
+				return b.X
+			}
+		}
+		return new(big.Int)
+	}
+	sharesOf := func(s *Snap, val int64) *big.Int {
+		for _, d := range s.Dels {
+			if d.KA == a && d.KV == val {
+				return d.Shares
+			}
+		}
+		return new(big.Int)
+	}
+	startOf := func(val int64) string {
+		for _, x := range post.Start {
+			if x.A == a && x.V == val {
+				return "(SI " + z(x.Period) + " " + zb(x.Stake) + " " + z(x.Height) + ")"
+			}
+		}
+		return "(SI 0 0 0)"
+	}
+	// the new entry is the last one of the (a, v, w) record
+	var tokens *big.Int
+	for _, r := range post.Reds {
+		if r.KA == a && r.KS == v && r.KD == w && len(r.Entries) > 0 {
+			tokens = r.Entries[len(r.Entries)-1].Init
+		}
+	}
+	if tokens == nil {
+		return
+	}
+	sp, err := c.App.StakingKeeper.GetParams(c.Ctx)
+	lib.Must(err)
+	var idb int64
+	for _, kv := range c.DumpPrefix(c.Ctx, "staking", []byte{0x37}) {
+		idb = int64(binary.BigEndian.Uint64(kv.V))
+	}
+	when, maxe := z(pre.Now+sp.UnbondingTime.Nanoseconds()), sp.MaxEntries
+	// only the sum of the two hook rewards is observable on the balance: it is attributed to the first answer
+	ans1 := fmt.Sprintf("(VA %s %s %s true %s %s %d)", zb(new(big.Int).Sub(balOf(post), balOf(pre))), startOf(v), zb(tokens), when, z(idb), maxe)
+	ans2 := fmt.Sprintf("(VA 0 %s %s true %s %s %d)", startOf(w), zb(new(big.Int).Sub(sharesOf(post, w), sharesOf(pre, w))), when, z(idb), maxe)
+	n := len(h.cw.items)
+	h.cw.Add(pre, fmt.Sprintf("CRedelegate %s %s %s %s %s %s", z(a), z(v), z(w), zb(new(big.Int).Sub(sharesOf(pre, v), sharesOf(post, v))), ans1, ans2), "OOk", post, h.cfg)
+	if len(h.cw.items) > n {
+		h.cw.follow++
+		h.rep.Count("follow-case:redelegate")
 	}
 }
 
